@@ -30,6 +30,12 @@ def run(ctx, pool):
     stats["nontrivial"] |= st3["nontrivial"]
     for k, v in st3["outcomes"].items():
         stats["outcomes"]["overcool_" + k] = v
+    # temperature programmes that leave the physical range (few kelvin, +inf, NaN, below 0 K) and permeate sides at or above the feed side
+    tw4, st4 = pc.record_processes(ctx, ctx.n(400, 12000), ctx.n(16, 600), {"with_std": False, "extreme": True})
+    tw.traces.extend(tw4.traces)
+    stats["nontrivial"] |= st4["nontrivial"]
+    for k, v in st4["outcomes"].items():
+        stats["outcomes"]["extreme_" + k] = v
     tw2, st2 = pc.record_processes(ctx, ctx.n(200, 5000), 0, {"with_std": False}, coarse=False)
     tw.traces.extend(tw2.traces)
     stats["nontrivial"] |= st2["nontrivial"]
